@@ -430,6 +430,34 @@ func builtinContainers(r *gen.Rand) *Case {
 	return &Case{Family: "builtin-containers", Src: sb.String(), Builtin: true}
 }
 
+// sharedLibraryState: what all VMs of the process share besides the Bytecode - the library's own error
+// values (a caught runtime error wraps ErrZeroDivision, ErrIndexOutOfBounds, ... themselves), the time
+// module's location cache, main's variadic parameter array - must not be written by a run: a script that
+// annotates a caught error (e.New), loads time zones or updates its own argument array sees what it
+// sees when it is alone, and the library errors keep their pristine text.
+func sharedLibraryState(r *gen.Rand) *Case {
+	var sb strings.Builder
+	sb.WriteString("param (n, s, ...rest)\ntime := import(\"time\")\nout := []\n")
+	ops := []string{
+		"try { x := n / (n - n) } catch e { e2 := e.New(\"ratio \" + s); out = append(out, string(e2)) }\n",
+		"try { y := 1 / (n - n) } catch e { out = append(out, string(e)) }\n",
+		"try { z := [1][n + 5] } catch e { e3 := e.New(\"idx \" + s); out = append(out, string(e3), string(e)) }\n",
+		"try { z := [1][7] } catch e { out = append(out, string(e)) }\n",
+		"try { q := 1 + [] } catch e { e4 := e.New(\"type \" + s); out = append(out, string(e4)) }\n",
+		"try { q := 2 + {} } catch e { out = append(out, string(e)) }\n",
+		"out = append(out, string(time.LoadLocation([\"Europe/Berlin\", \"Asia/Tokyo\", \"America/New_York\", \"Africa/Cairo\", \"Australia/Sydney\", \"Asia/Kolkata\", \"America/Sao_Paulo\"][n % 7])))\n",
+		"out = append(out, string(time.LoadLocation(\"Pacific/Auckland\")))\n",
+		"rest = append(rest, s)\nout = append(out, len(rest))\n",
+		"if len(rest) > 0 { rest[0] = s + \"!\" }\nout = append(out, rest)\n",
+	}
+	k := 3 + r.Intn(6)
+	for i := 0; i < k; i++ {
+		sb.WriteString(ops[r.Intn(len(ops))])
+	}
+	sb.WriteString("try { w := 5 % (n - n) } catch e { out = append(out, string(e)) }\nreturn out\n")
+	return &Case{Family: "shared-library-state", Src: sb.String(), Builtin: true}
+}
+
 func errorsTraces(r *gen.Rand) *Case {
 	depth := 1 + r.Intn(4)
 	mods := map[string]string{
@@ -499,7 +527,7 @@ func generated(r *gen.Rand) *Case {
 
 // Generate returns n cases drawn from all families.
 func Generate(r *gen.Rand, n int) []*Case {
-	fams := []func(*gen.Rand) *Case{closures, srcModules, builtinModules, builtinContainers, errorsTraces, callbacks, generated, generated}
+	fams := []func(*gen.Rand) *Case{closures, srcModules, builtinModules, builtinContainers, errorsTraces, callbacks, generated, generated, sharedLibraryState}
 	var cs []*Case
 	for i := 0; i < n; i++ {
 		f := fams[i%len(fams)]
@@ -586,6 +614,44 @@ return strings.Map(func(ch) {
 		case r := <-bad:
 			return fmt.Sprintf("after another VM was aborted, a new VM's callback run returned %q (want \"laterabc\")", r)
 		default:
+		}
+	}
+	return ""
+}
+
+// HostArgsProbe: a host may pass the SAME argument slice to several VMs (vm.Run(globals, args...)); a
+// script that updates its own variadic parameter array must not be seen by the other VMs or the host.
+func HostArgsProbe() (problem string) {
+	for _, src := range []string{
+		"param ...xs\nxs[0] = xs[0] + \"!\"\nxs = append(xs, 1)\nreturn xs",
+		"param (a, ...xs)\nxs[1] = a\nreturn [a, xs]",
+		"param (a, b)\na = b\nb = 0\nreturn [a, b]",
+	} {
+		bc, err := ugo.Compile([]byte(src), ugo.CompilerOptions{})
+		if err != nil {
+			return "compile: " + err.Error()
+		}
+		mk := func() []ugo.Object {
+			a := make([]ugo.Object, 3, 8) // spare capacity: append in the script must not write into it either
+			a[0], a[1], a[2] = ugo.String("a"), ugo.String("b"), ugo.String("c")
+			return a
+		}
+		solo, err := ugo.NewVM(bc).Run(nil, mk()...)
+		if err != nil {
+			return "solo run: " + err.Error()
+		}
+		args := mk()
+		for i := 0; i < 3; i++ {
+			got, err := ugo.NewVM(bc).Run(nil, args...)
+			if err != nil {
+				return "run: " + err.Error()
+			}
+			if got.String() != solo.String() {
+				return fmt.Sprintf("VM #%d given the slice an earlier VM was given returns %s, alone it returns %s", i+1, got, solo)
+			}
+		}
+		if fmt.Sprint(args[:cap(args)][:4]) != fmt.Sprint(mk()[:4]) {
+			return fmt.Sprintf("the host's argument slice was modified by the runs: %v", args[:cap(args)][:4])
 		}
 	}
 	return ""
